@@ -3,20 +3,19 @@
 E3  MC_Proposal: decision table = every well-formed pre-state of a family (installed proposals over
     three overlapping transactions, timestamps around ts + gap, commitment/response counts around
     the threshold, verifier-map owners, body/finalization/cache classes) x every retirement step
-    (expiry, retry, round reset, announcement deferral). The INTENDED specification satisfies the
-    property everywhere; the specification of the code AS IT IS satisfies it except exactly the
-    known finding C24-1 (witness: reachable).
+    (expiry, retry, round reset, announcement deferral). The specification satisfies the property
+    everywhere; the variant in which a retry requeues every transaction of the retired proposal
+    (the behaviour before repair a97b75a) violates it (non-vacuity witness).
 E1  TLC-emitted cases built on a real node (SetupNode over a real BadgerStore; Chain maps as the
     repository's tests build them) and executed by the real expireCosiAggregators /
     retryCosiSnapshot / resetCosiStateForNewRound / prepareAnnouncement.
 E2  recorded pre/post projections (maps, stores, one real CacheRetrieveTransactions(255) as the
     last step) judged by TLC against Trace_Proposal (full conformance + monitor, then monitor)."""
-import json, os, random, re
+import json, os, random
 
 PROPS = ["C24"]
 from vlib import read_ndjson, Infra
 
-KNOWN_ID = "C24-1"
 
 
 def run(ctx, args):
@@ -26,12 +25,12 @@ def run(ctx, args):
     fams = ["two"] if quick else ["two", "three"]
     from concurrent.futures import ThreadPoolExecutor
     with ThreadPoolExecutor(max_workers=8) as ex:
-        # one TLC run per family checks the decision table (invariants PropertyHolds for the intended
-        # specification, PropertyOrKnown for the code as it is, OrderFree) AND emits its cases
+        # one TLC run per family checks the decision table (invariants PropertyHolds, OrderFree) AND
+        # emits its cases
         fe = [ex.submit(ctx.tlc_edges, d, "MC_Proposal.tla", "Gen_Proposal_%s.cfg" % f, timeout=2400, tag="CASE ")
               for f in fams]
         fs = [ex.submit(ctx.tlc_mc, d, "MC_Proposal.tla", "MC_Proposal_%s.cfg" % w, workers=1, timeout=600,
-                        expect_violation=w, count=False) for w in ("NoKnown", "ReachRequeued", "ReachOwnedKept")]
+                        expect_violation=w, count=False) for w in ("RequeueAllBreaks", "ReachRequeued", "ReachOwnedKept")]
         for f in fs:
             f.result()
         fam_cases = []
@@ -46,7 +45,7 @@ def run(ctx, args):
             ctx.states += len(cs)
             ctx.transitions += len(cs)
     ctx.exhaustive = True
-    ctx.cov["witnesses_reached"] = ["NoKnown (the finding C24-1 is reachable in the specification of the code as it is)",
+    ctx.cov["witnesses_reached"] = ["RequeueAllBreaks (a retry that requeues every transaction violates StepOK)",
                                     "ReachRequeued", "ReachOwnedKept"]
     # ---- E1: quick = seeded sample of the two-proposal family; thorough = all of it + a sample of the
     # three-proposal family
@@ -79,12 +78,7 @@ def run(ctx, args):
                 "distinct (observed pre-state, step) pairs; quick: seeded sample of the two-proposal family, thorough: "
                 "all of it plus a seeded sample of the three-proposal family")
     ctx.samples = [{"pre": e["pre"], "o": e["o"], "queue": e["post"]["queue"]} for e in events[:2]]
-    known = [k for k in ctx.known() if k.get("id") == KNOWN_ID]
-    if known:
-        os.environ["VERIF_KNOWN_C24_1"] = "1"
-    else:
-        os.environ.pop("VERIF_KNOWN_C24_1", None)
-    validate(ctx, d, trace, events, known)
+    validate(ctx, d, trace, events)
     ctx.assumptions += [
         "pre-states are constructed directly in the Chain maps (as the repository's tests do), not reached through the CoSi handlers",
         "a proposal deferred by prepareAnnouncement is explored only with transactions no installed proposal guards "
@@ -94,35 +88,21 @@ def run(ctx, args):
     ]
 
 
-def known_lines(out):
-    return sorted({int(m) for m in re.findall(r'"KNOWN-REACHED", "C24-1", (\d+)', out)})
-
-
-def validate(ctx, d, trace, events, known):
-    def note_known(out):
-        ls = known_lines(out)
-        if ls and known:
-            ctx.known_reached.append("%s: %s [reached in %d recorded cases, first: step %s]"
-                                     % (KNOWN_ID, known[0].get("text", ""), len(ls), json.dumps(events[ls[0] - 1]["o"])))
-            ctx.cov["known_finding_cases"] = len(ls)
-
+def validate(ctx, d, trace, events):
     r = ctx.tlc_trace(d, "Trace_Proposal.tla", "Trace_Proposal_full.cfg", trace, timeout=2400)
     if r["accepted"]:
         ctx.traces = len(events)
-        note_known(r["out"])
         ctx.log("E2 full conformance + monitor: %d recorded cases accepted" % len(events))
         return
     ctx.log("E2 full pass rejected at line %s; running the property monitor alone" % r["line"])
     r2 = ctx.tlc_trace(d, "Trace_Proposal.tla", "Trace_Proposal_C24.cfg", trace, timeout=2400)
     if r2["accepted"]:
         ctx.traces = len(events)
-        note_known(r2["out"])
         ctx.mismatches.append({"line": r["line"], "event": events[r["line"] - 1] if r["line"] and r["line"] <= len(events) else None})
         ctx.notes.append("conformance mismatch not forbidden by this property (see conformance_mismatches)")
         return
     line = r2["line"] or 1
     ctx.traces = line - 1
-    note_known(r2["out"])
     ev = events[line - 1] if line <= len(events) else None
     ctx.violation("a retirement step executed on the real node breaks C24 (Proposal!StepOK: a pending transaction of the "
                   "retired proposal is not eligible afterwards, or a transaction owned by a still-active proposal was "
